@@ -1,6 +1,7 @@
 package run
 
 import (
+	"verif/internal/mon"
 	"fmt"
 	"os"
 	"runtime"
@@ -46,6 +47,7 @@ func guards(c *Ctx, out string, stall time.Duration) {
 			if lim := c.heapLimit.Load(); live > lim {
 				// garbage the collector has not got round to yet counts in
 				// this metric: collect and look again before calling it
+				mon.HarnessGCs.Add(1)
 				runtime.GC()
 				metrics.Read(s)
 				live = int64(s[0].Value.Uint64())
